@@ -151,6 +151,7 @@ def _run_wellformed(ctx, res, S):
     n_cases = 160 if not thorough else 1500
     lines, meta = [], []
     pvals = []
+    zscores = []
     for k in range(n_cases):
         family = FAMILIES[k % len(FAMILIES)]
         N = int(rng.integers(1, 6))
@@ -223,6 +224,15 @@ def _run_wellformed(ctx, res, S):
         p = _chi2(res, f, out_f[0], rep)
         if p is not None:
             pvals.append(round(p, 4))
+        # sample mean of a per-grain statistic vs its volume-weighted value (expectation_eq_weighted):
+        # statistic g_i = f_i and g_i = first orientation entry; 8-sigma band
+        for gname, gvals, sampled in (("volume", f, out_f[0]), ("orientation_00", O[0, :, 0, 0], out_o[0][:, 0, 0])):
+            mean = float(np.sum(f * gvals))
+            var = float(np.sum(f * gvals**2) - mean**2)
+            z = abs(float(np.mean(sampled)) - mean) / max(np.sqrt(max(var, 0.0) / n), 1e-300)
+            zscores.append(round(float(z), 2))
+            if var > 0 and z > 8:
+                res.violation("distribution:sample_mean", f"sample mean of {gname} is {z:.1f} sigma from the volume-weighted mean", rep)
         if (out_f[0] == 0).any() and (U[0][out_f[0] == 0] > 0).any():
             res.violation("zero_volume:drawn", "a zero-volume grain was drawn", rep)
         lines.append(f"rs_snap {M} s {C.fs2h(f)} {n} {C.fs2h(U[0])}")
@@ -234,7 +244,8 @@ def _run_wellformed(ctx, res, S):
         has_ties = len(np.unique(f)) < M
         meta.append(("own", -1 - j, 0, f, out_f[0], grains, has_ties, rep))
         res.nontrivial(("big", M, n, seed))
-    res.notes.append(f"chi-square p-values of the large-sample cases (supporting only): {pvals}")
+    res.notes.append(f"chi-square p-values of the large-sample cases (supporting only): {pvals}; "
+                     f"z-scores of sample means vs volume-weighted means: {zscores}")
     outs = C.run_driver(lines)
     for (which, k, i, f, want_f, grains, has_ties, rep), line in zip(meta, outs):
         parts = [p.split() for p in line.split(";")]
